@@ -110,9 +110,20 @@ class C04(Check):
 
     def install(self, ctx):
         S.install(ctx)
+        from checks import C03
+        C03.CHECK.install(ctx)
+
+    def modular(self):
+        from checks import C03
+        return C03.CHECK.modular()
 
     def contracts(self):
-        return [HandleInitialize()]
+        # the end-to-end clause ("a library client talking to a library server ends agreed on a version both support, or
+        # with a version-mismatch error") is a lemma over the server contract and the CLIENT contract: the client side
+        # (C03.SendInitialize: success only with an answered version from the caller's own list) is re-verified here
+        from checks import C03
+        return [HandleInitialize(), C03.SendInitialize("given", "given"), C03.SendInitialize("given", "none"),
+                C03.SendInitialize("default", "none")]
 
     def lemmas(self):
         return [Lemma("C04.lemma.handshake_ends_agreed_or_with_mismatch", lemma_handshake)]
